@@ -3,7 +3,7 @@ from checks import symgen, refqr, refmicro, refrmqr, gf256
 from checks.refqr import bits_of
 
 ID = 'C07'
-PROP_MODULES = ['QRV.Props.C07', 'QRV.Props.C06Micro', 'QRV.Props.C06RMQR', 'QRV.Props.C07RMQR', 'QRV.Props.C07Micro']
+PROP_MODULES = ['QRV.Props.C07', 'QRV.Props.C06Micro', 'QRV.Props.C06RMQR', 'QRV.Props.C07RMQR', 'QRV.Props.C07Micro', 'QRV.Props.C01MicroWeak']
 RULE = ('structurally valid symbols (correct function patterns, format information and Reed-Solomon parity, built by the independent reference encoder) whose DATA codewords are '
         'arbitrary: random bytes; bit streams made of every mode-indicator value, count fields at / below / beyond what the remaining codewords hold, digit groups >= 1000/100/10, '
         'alphanumeric pairs >= 2025, kanji codes that are unassigned or beyond the table, segments truncated in the middle of a character, valid segment lists followed by garbage. '
@@ -16,13 +16,13 @@ TRUSTED = [
     'symbol models tied by correspondence',
 ]
 ASSUMPTIONS = []
-PARTIAL = 'well-formedness of every decoded description is a theorem for all three decoders (qr_decoded_wf, micro_decoded_wf, rmqr_decoded_wf); re-encodability whenever it fits is a theorem for QR, rMQR and (non-empty segments) Micro QR; over-full descriptions from truncated final characters are the recorded finding D16'
+PARTIAL = 'well-formedness of every decoded description is a theorem for all three decoders (qr_decoded_wf, micro_decoded_wf, rmqr_decoded_wf); re-encodability whenever it fits is a theorem for all three (QR, rMQR, Micro QR: micro_decoded_reencodes_any); over-full descriptions from truncated final characters are the recorded finding D16'
 MANIFEST = {
     'technique': 'Lean 4: every description the QR, Micro QR and rMQR decoder models return is well-formed (fields in range, version = size, modes supported, bytes valid per mode) and, QR, if it fits, re-encodes and decodes to itself (via the round-trip theorem); arbitrary-codeword symbols by differential runs',
     'text': ('QRV/Props/C07.lean proves for the QR decoder model: whatever DecodeBitmap returns has the version given by the bitmap size, level and mask in range, and only segments of supported modes whose bytes are '
              'valid for the mode with a representable count (numeric digits, the 45-set, well-formed UTF-8 of kanji-representable characters; unassigned kanji codes are rejected: C17); and every such description '
              'that fits the symbol re-encodes and decodes to the identical description (from roundtrip_QR). Descriptions that do not fit arise only from the recorded finding D16. Props/C06Micro.lean and C06RMQR.lean prove the same well-formedness for the Micro QR decoder (legal version-level pair, modes of the version, no empty numeric segment, no empty M4 segment, 9+2v square) '
-             'and the rMQR decoder (version 0-31 of the bitmap\'s width and height, level 0-1). Props/C07RMQR.lean: a decoded rMQR description that fits re-encodes and decodes to itself. Props/C07Micro.lean: the same for Micro QR when no decoded segment is empty. The count-overrun / out-of-range-group cases are exercised on structurally valid symbols with arbitrary data codewords built by the reference encoder.'),
+             'and the rMQR decoder (version 0-31 of the bitmap\'s width and height, level 0-1). Props/C07RMQR.lean: a decoded rMQR description that fits re-encodes and decodes to itself. Props/C01MicroWeak.lean: the same for EVERY description the Micro QR decoder returns (round trip under the sharp condition: no empty numeric segment, no empty M4 segment - which the decoder guarantees). The count-overrun / out-of-range-group cases are exercised on structurally valid symbols with arbitrary data codewords built by the reference encoder.'),
     'note': 'Trusted: Lean kernel; reference encoder wrapping arbitrary codewords; models tied by correspondence.',
 }
 
